@@ -91,6 +91,7 @@ fn c11_cache_history_1() {
     let o = Oracle::any();
     let mut cache = Cache::with_capacity(NC);
     step(&mut cache, &o);
+    kani::cover!(cache.miss > 0);
     std::mem::forget(cache);
 }
 
@@ -101,6 +102,7 @@ fn c11_cache_history_2() {
     let mut cache = Cache::with_capacity(NC);
     step(&mut cache, &o);
     step(&mut cache, &o);
+    kani::cover!(cache.hit > 0 && cache.miss > 0);
     std::mem::forget(cache);
 }
 
@@ -126,6 +128,7 @@ fn c11_cache_history_clone_2() {
     let mut c2 = cache.clone();
     step(&mut c2, &o);
     step(&mut cache, &o);
+    kani::cover!(cache.hit > 0 && c2.hit > 0);
     std::mem::forget(cache);
     std::mem::forget(c2);
 }
@@ -138,6 +141,7 @@ fn c11_cache_history_3() {
     step(&mut cache, &o);
     step(&mut cache, &o);
     step(&mut cache, &o);
+    kani::cover!(cache.hit > 1 && cache.miss > 0);
     std::mem::forget(cache);
 }
 
